@@ -12,7 +12,9 @@
  * offset in the key and pointed at a fresh exact-size block when the state is
  * restored) plus the storage cells.  No clause looks at head/tail/index
  * values: a slot outside the storage is observed by ASan on the exact-size
- * block.  The only member the harness names is `data` (geometry clause).
+ * block.  The harness names no member of the ring object (a ring that moved
+ * its storage elsewhere is seen by the pointer-rebasing restore -- the cells of
+ * the fresh block no longer follow the queue -- and by ASan's exact blocks).
  *
  * Roots: init alone (the mode init chooses is not assumed: it is *probed* on a
  * fresh zeroed object -- fill, one more put, get -- and the model starts with
@@ -39,6 +41,22 @@
  * (rotate the cursors, fill to each boundary, overfill, iterate, drain,
  * wrap, iterate, drain to empty) with position-dependent element values.
  */
+/* Build variants.  NDEBUG is a per-translation-unit setting: the library
+ * objects (octet_ring, rb_iter_done / rb_iter_advance) and the application
+ * that instantiates the template for its own element types are built
+ * separately -- the repository's default build type keeps assertions, release
+ * applications define NDEBUG.  The orchestrator's flags apply to the library
+ * sources; C19_APP_DEBUG / C19_APP_NDEBUG give this file (the application) the
+ * other setting.  C19_LIGHT: the small-scope search at capacities 1..3 only
+ * (the mixed and the all-assertions builds repeat the search, not the large
+ * capacities). */
+#if defined(C19_APP_DEBUG)
+#undef NDEBUG
+#elif defined(C19_APP_NDEBUG)
+#undef NDEBUG
+#define NDEBUG 1
+#endif
+
 #include "mc.h"
 
 #include <ufw/octet-ring.h>
@@ -411,10 +429,7 @@ state_limit_for(size_t cap)
                 NAME##_override_if_full(&c, root == 2);                                       \
                 k0.movr = (uint8_t)(root == 2);                                               \
             }                                                                                 \
-            if (c.data != mem)                                                                \
-                mc_fail("C19/geometry-unchanged", "storage pointer changed");                 \
-            else                                                                              \
-                check_observers_##NAME(&c, k0.q, 0, cap, ~0u);                                \
+            check_observers_##NAME(&c, k0.q, 0, cap, ~0u);                                    \
             snapshot_##NAME(&k0, &c, mem, cap);                                               \
             int64_t id = -1;                                                                  \
             if (!mc.cur_failed && mc_set_add(&set, &k0, sizeof k0, -1, -1, &id) && id < 4)    \
@@ -529,11 +544,7 @@ state_limit_for(size_t cap)
                 }                                                                             \
                 for (size_t i = m.qlen; i < MAXCAP; ++i)                                      \
                     m.q[i] = 0; /* canonical model: no stale tail */                          \
-                bool sane = true;                                                             \
-                if (c.data != nmem) {                                                         \
-                    mc_fail("C19/geometry-unchanged", "storage pointer changed");             \
-                    sane = false;                                                             \
-                }                                                                             \
+                const bool sane = true; /* no clause on the object's private members */       \
                 if (sane) {                                                                   \
                     snapshot_##NAME(&m, &c, nmem, ncap);                                      \
                     if (mc.active) {                                                          \
@@ -617,8 +628,6 @@ state_limit_for(size_t cap)
             }                                                                                 \
         }                                                                                     \
         mc_trans((int64_t)(fill + (size_t)extra));                                            \
-        if (c.data != mem)                                                                    \
-            mc_fail("C19/geometry-unchanged", "storage pointer changed");                     \
         mc_log("after fill: queue holds %zu", hi - lo);                                       \
         if (!mc.cur_failed)                                                                   \
             check_observers_##NAME(&c, hist + lo, hi - lo, cap, itmask);                      \
@@ -751,7 +760,11 @@ int
 main(int argc, char **argv)
 {
     mc_init(argc, argv);
+#ifdef C19_LIGHT
+    const size_t maxcap = 3;
+#else
     const size_t maxcap = mc_thorough() ? 10 : 5;
+#endif
     for (size_t cap = 1; cap <= maxcap; ++cap) {
         /* one partition per (capacity, element type): independent searches */
         if (mc_partition((int)(NTYPES * (maxcap - cap) + 0), (int64_t)(NTYPES * cap + 0)))
@@ -769,11 +782,29 @@ main(int argc, char **argv)
     }
     /* the structured large-capacity histories are an odometer: sharded case by case */
     mc_partition(-1, 199);
+#ifndef C19_LIGHT
     big_family();
+#endif
     /* vacuity is guarded by the orchestrator's required outcome classes
      * (put-evicts, put-dropped, get-empty, get-oldest, clear, ...): the
      * searches are spread over the shards, so no single process sees all */
     char bound[900];
+#ifdef C19_LIGHT
+    snprintf(bound, sizeof bound,
+             "build variant (library %s assertions, application %s): capacities 1..%zu x element types u8/u16/u32/float/double/int64 x two element values, all operations + re-initialisation, "
+             "roots init / init+override(off) / init+override(on) / init of a 0xff object, observers and both iterators on 7 iterator-object histories in every state, to fixpoint",
+#if defined(C19_APP_DEBUG)
+             "without", "with",
+#elif defined(C19_APP_NDEBUG)
+             "with", "without",
+#elif defined(NDEBUG)
+             "without", "without",
+#else
+             "with", "with",
+#endif
+             maxcap);
+    if (0)
+#endif
     snprintf(bound, sizeof bound,
              "capacities 1..%zu x element types u8/u16/u32/float/double/int64 x two element values (fractions, negative and > 2^32 values for the last three), all operations + re-initialisation of the used object "
              "to capacities {cap-1,cap,cap+1,1,%zu} from every state of the home capacity, roots init / init+override(off) / init+override(on) / "
